@@ -4,6 +4,7 @@ package main
 
 import (
 	"bytes"
+	"fmt"
 
 	"golang.org/x/crypto/ssh"
 	"verifharness/hx"
@@ -68,7 +69,11 @@ func gen(g *hx.Gen) {
 			}
 		}
 		g.Stat("op.key")
-		g.Emit("key pw=%s salt=%s rep=%d rounds=%d keylen=%d", hx.Hex(pw), hx.Hex(salt), rep, rounds, kl)
+		// caller-memory layout: 0 = salt and password apart, sentinel-filled spare capacity behind each;
+		// 1 = the password sits directly behind the salt INSIDE the salt slice's capacity; 2 = password first
+		lay := r.Intn(3)
+		g.Stat(fmt.Sprintf("layout.%d", lay))
+		g.Emit("key pw=%s salt=%s rep=%d rounds=%d keylen=%d lay=%d", hx.Hex(pw), hx.Hex(salt), rep, rounds, kl, lay)
 	}
 }
 
@@ -77,20 +82,44 @@ func exec(line string) string {
 	if o.Cmd != "key" {
 		return "bad-op"
 	}
-	salt := bytes.Repeat(o.Hex("salt"), o.Int("rep"))
-	pw := o.Hex("pw")
-	pw0 := append([]byte(nil), pw...)
-	k, err := ssh.VerifBcryptPbkdfKey(pw, salt, o.Int("rounds"), o.Int("keylen"))
+	saltB := bytes.Repeat(o.Hex("salt"), o.Int("rep"))
+	pwB := o.Hex("pw")
+	lay := 0
+	if o.Has("lay") {
+		lay = o.Int("lay")
+	}
+	var ar *arena
+	var pw, salt []byte
+	switch lay {
+	case 1: // salt, then the password inside the salt's spare capacity
+		var in [][]byte
+		ar, in = build(spec{name: "salt", data: saltB, capInto: len(pwB) + 8}, spec{name: "pw", data: pwB, spare: 8})
+		salt, pw = in[0], in[1]
+	case 2:
+		var in [][]byte
+		ar, in = build(spec{name: "pw", data: pwB, spare: 8}, spec{name: "salt", data: saltB, spare: 8})
+		pw, salt = in[0], in[1]
+	default:
+		var in [][]byte
+		ar, in = build(spec{name: "salt", data: saltB, spare: 8}, spec{name: "pw", data: pwB, spare: 8})
+		salt, pw = in[0], in[1]
+	}
+	mut := mutated{}
+	var k []byte
+	var err error
+	if txt, p := hx.PanicText(func() { k, err = ssh.VerifBcryptPbkdfKey(pw, salt, o.Int("rounds"), o.Int("keylen")) }); p {
+		_ = txt
+		mut.add(ar.changed())
+		return "panic " + mut.String()
+	}
+	mut.add(ar.changed())
 	if err != nil {
 		if k != nil {
 			return "err-with-key"
 		}
-		return "err"
+		return "err " + mut.String()
 	}
-	if !bytes.Equal(pw, pw0) {
-		return "password-modified"
-	}
-	out := "ok " + hx.Hex(k)
+	out := "ok " + hx.Hex(k) + " " + mut.String()
 	if o.Has("expect") {
 		if hx.Hex(k) == o.Str("expect") {
 			return out + " kat=ok"
